@@ -37,15 +37,15 @@ Oracle(post, tx) == IF tx.kind = "app_stake" /\ tx.app \in DOMAIN post.app THEN 
 PoolDiffers(a, b) == BalOf(a, APPPOOL) # BalOf(b, APPPOOL)
                      \/ AppStakeSum(a) # AppStakeSum(b)
 
-\* tag of the property that owns a request class
-ClassTag(cls, tx) ==
-    CASE cls \in {"new", "transfer"} -> "C28"
-      [] cls = "edit"                -> "C23"
-      [] cls = "app_unstake"         -> "C24"
-      [] cls = "rejected" /\ tx.kind = "app_stake"   -> "C28"
-      [] cls = "rejected" /\ tx.kind = "app_unstake" -> "C24"
-      [] OTHER                       -> "AUX"
-
+\* tags of the properties that own a request class.  An edit-stake belongs to C23, except where the
+\* request runs into an ADMISSION limit (chain count, funds for the bump), which C28 owns on both paths.
+ClassTags(cls, why, tx) ==
+    CASE cls \in {"new", "transfer"} -> {"C28"}
+      [] cls = "edit" -> (IF why = "toomanychains" THEN {"C28"} ELSE IF why = "coins" THEN {"C23", "C28"} ELSE {"C23"})
+      [] cls = "app_unstake"         -> {"C24"}
+      [] cls = "rejected" /\ tx.kind = "app_stake"   -> {"C28"}
+      [] cls = "rejected" /\ tx.kind = "app_unstake" -> {"C24"}
+      [] OTHER                       -> {"AUX"}
 DeliverTags(pre, c, e) ==
     LET tx   == e.tx
         h    == e.h
@@ -53,16 +53,17 @@ DeliverTags(pre, c, e) ==
         post == Canon(e.st)
         ok   == e.res.code = 0
         cls  == AppsClass(pre, c, tx, h)
-        own  == ClassTag(cls, tx)
+        own  == ClassTags(cls, AppsWhy(pre, c, tx, h), tx)
     IN IF AppsAnteClass(pre, c, tx, h) # "ok"
-         THEN IF post # pre \/ ok THEN {own} ELSE {}
+         THEN IF post # pre \/ ok THEN own ELSE {}
          ELSE LET want == AppsDeliver(pre, c, tx, h, t, Oracle(post, tx)) IN
               \* (a) exact model
               (IF post = want /\ ok = AppsDeliverOK(pre, c, tx, h, t) THEN {}
-               ELSE {own} \cup (IF PoolDiffers(post, want) THEN {"C20"} ELSE {}))
+               ELSE own \cup (IF PoolDiffers(post, want) THEN {"C20"} ELSE {}))
               \* (b) the properties' own statements
               \cup (IF tx.kind \in AppsKinds
-                    THEN (IF Step_C28_New(pre, c, tx, post, ok) /\ Step_C28_Transfer(pre, c, tx, post, ok) THEN {} ELSE {"C28"})
+                    THEN (IF Step_C28_New(pre, c, tx, post, ok) /\ Step_C28_Transfer(pre, c, tx, post, ok)
+                             /\ Step_C28_Edit(pre, c, tx, post, ok) THEN {} ELSE {"C28"})
                          \cup (IF Step_C23_App(pre, c, tx, post, ok) THEN {} ELSE {"C23"})
                          \cup (IF Step_C24_Deliver(pre, c, tx, t, post, ok) THEN {} ELSE {"C24"})
                     ELSE {})
@@ -79,7 +80,7 @@ CommitTags(c, e, don) ==
     LET st == Canon(e.st) IN
     (IF Inv_C20(st, don) THEN {} ELSE {"C20"})
     \cup (IF Inv_C20(st, 0) THEN {} ELSE {"C20S"})            \* strict form: the known finding shows here
-    \cup (IF Inv_AppIndex(st) /\ NoDupIx(e.st) /\ Inv_C28_Relays(st, c) THEN {} ELSE {"C28"})
+    \cup (IF Inv_AppIndex(st) /\ NoDupIx(e.st) /\ Inv_C28_Relays(st, c) /\ Inv_C28_Chains(st, c) THEN {} ELSE {"C28"})
     \cup (IF Inv_C24_NoOverdue(st, e.t) THEN {} ELSE {"C24"})
 
 Donation(pre, c, e) ==
